@@ -23,7 +23,8 @@ C05 line-protocol driver.   One case = one line of three or four fields:
            names > j (no cycles: a cycle is unbounded recursion in the Go code)
 
 Answer:  `t=<id.path.err,…|-> s=<status|->`   (err = `n` or the status in the request context;
-         `err/repl` when the `{http.error.status_code}` placeholder the handler saw differs from it)
+         `err/repl` when the `{http.error.status_code}` placeholder the handler saw differs from it;
+         `path!uri` when the RequestURI the handler saw differs from its URL path)
 -/
 import CaddyModel.Util.Hex
 import CaddyModel.C05.Model
@@ -236,7 +237,7 @@ end
 
 def parseReq (s : String) : Option Req :=
   match (s.splitOn ",").mapM natTok with
-  | some [m, h, p, x] => if m < 2 && h < 3 && p < 6 && x < 3 then some ⟨m, h, p, x, [], none, none⟩ else none
+  | some [m, h, p, x] => if m < 2 && h < 3 && p < 6 && x < 3 then some ⟨m, h, p, x, [], none, none, p, []⟩ else none
   | _ => none
 
 def showErr : Option Nat → String
@@ -246,8 +247,9 @@ def showErr : Option Nat → String
 def showTrace (t : Trace) : String :=
   if t.isEmpty then "-" else
   ",".intercalate (t.map fun e =>
-    if e.repl == e.err then s!"{e.id}.{e.path}.{showErr e.err}"
-    else s!"{e.id}.{e.path}.{showErr e.err}/{showErr e.repl}")
+    let p := if e.uri == e.path then toString e.path else s!"{e.path}!{e.uri}"
+    if e.repl == e.err then s!"{e.id}.{p}.{showErr e.err}"
+    else s!"{e.id}.{p}.{showErr e.err}/{showErr e.repl}")
 
 def showResult (x : Result) : String :=
   "t=" ++ showTrace x.trace ++ " s=" ++ (match x.status with | none => "-" | some s => toString s)
@@ -323,7 +325,7 @@ def handleHE (sF pF blocksF : String) : String :=
       let sorted := C16.insertionSort (fun x y => blockLess x.1 y.1)
         (ps.map fun q => (blockRoutes q.1 q.2, q.2.map (dirDesc q.1)))
       let descs := (sorted.map (·.2)).flatten
-      let res := serve [.mk 0 [] [.raise (.lit s)] false] true errs ⟨0, 0, p, 0, [], none, none⟩
+      let res := serve [.mk 0 [] [.raise (.lit s)] false] true errs ⟨0, 0, p, 0, [], none, none, p, []⟩
       "he s=" ++ (match res.status with | none => "-" | some c => toString c) ++
         " r=" ++ (if descs.isEmpty then "-" else ";".intercalate descs)
     | .routes _, none => "bad-op"
@@ -394,6 +396,7 @@ def encCase (routes : List Route) (hasErrs : Bool) (errs : List Route) (r : Req)
 def witnessLines : List String :=
   [ encCase wRewriteRoutes true wRewriteErrs wReq,
     encCase wStaleRoutes true wStaleErrs wReq,
+    encCase wStaleUriRoutes false [] wReq,
     encCase (wOrderRoutes wSetA) false [] wReq,
     encCase (wOrderRoutes wSetB) false [] wReq ]
 
